@@ -120,6 +120,9 @@ func runBackend(kind string, bs int, c cfg, mm *gostatsd.MetricMap) string {
 		if strings.HasPrefix(kind, "otlp") && bs == 1 {
 			opts.ResourceKeys = []string{"gsd_histogram", "host", "gsd_histogram"} // resource keys, one of them listed twice
 		}
+		if strings.HasPrefix(kind, "newrelic") && bs == 1 {
+			opts.TagPrefix = "p:" // a tag prefix that itself holds a colon (accepted by the constructor)
+		}
 		b, err := bk.New(kind, opts)
 		if err != nil {
 			cerr = err.Error()
